@@ -185,40 +185,29 @@ def run(ctx):
     if not os.path.exists(REF):
         raise AnalysisError("reference/wire_table.json missing")
     ref = json.load(open(REF))
-    cur = compute_table(ctx)
+    # the bytes every instruction's own serialize() produces (checker's interpreter, ctypes modelled) are compared with the bytes the
+    # published table prescribes for the same operand values: opcode at byte 0, every operand leaf at its published bit position,
+    # padding zero (nqsa/codec.py)
+    from .. import codec
+    codec.emit(ctx, layout="C02.L", rng="C02.W")  # C02.W: a leaf takes exactly the values of its published width (nothing outside is written as a value inside)
+    have = {}
+    for fname, (fc, core, spec) in I.flavours(repo).items():
+        have[fname] = {I.field_default(repo, ev, c, "mnemonic") for c in core + spec}
     n = 0
     for fname, rt in sorted(ref["flavours"].items()):
-        ct = cur["flavours"].get(fname)
-        if ct is None:
+        if fname not in have:
             ctx.check("C02.L", f"{fname}:present", False, f"flavour {fname} of the reference table no longer exists")
             continue
-        for mn, r in sorted(rt.items()):
+        for mn in sorted(rt):
             n += 1
-            c = ct.get(mn)
-            key = f"{fname}:{mn}"
-            if c is None:
-                ctx.check("C02.L", f"{key}:present", False, f"{fname} no longer has an instruction with mnemonic {mn!r} (published table entry vanished)")
-                continue
-            if mn not in UNPINNED_OPCODES:
-                ctx.check("C02.L", f"{key}:opcode", c["opcode"] == r["opcode"], f"{fname} {mn}: opcode is {c['opcode']}, published table says {r['opcode']}",
-                          sample={"instr": key, "opcode": c["opcode"]})
-            ctx.check("C02.L", f"{key}:size", c["size"] == 7, f"{fname} {mn}: command struct is {c['size']} bytes, must be 7", trivial=True)
-            ctx.check("C02.L", f"{key}:opcode-at-byte-0", c["opcode_at"] == [{"offset": 0, "bit_offset": 0, "bits": 8, "signed": False}],
-                      f"{fname} {mn}: opcode stored at {c['opcode_at']}, must be the unsigned byte 0", trivial=True)
-            if len(c["operands"]) != len(r["operands"]):
-                ctx.check("C02.L", f"{key}:operand-count", False, f"{fname} {mn}: {len(c['operands'])} operands, published table has {len(r['operands'])}")
-                continue
-            for co, ro in zip(c["operands"], r["operands"]):
-                ok = "error" not in co and co.get("leaves") == ro.get("leaves") and co.get("type") == ro.get("type")
-                ctx.check("C02.L", f"{key}:operand{ro['pos']}", ok,
-                          f"{fname} {mn}: operand {ro['pos']} is laid out as {co.get('type')} {co.get('leaves', co.get('error'))}, published table says {ro.get('type')} {ro.get('leaves')}",
-                          sample={"instr": key, "operand": ro["pos"], "layout": co.get("leaves")} if n % 9 == 0 else None)
-        extra = sorted(set(ct) - set(rt))
-        for mn in extra:
+            ctx.check("C02.L", f"{fname}:{mn}:present", mn in have[fname], f"{fname} no longer has an instruction with mnemonic {mn!r} (published table entry vanished)", trivial=True)
+        for mn in sorted(have[fname] - set(rt)):
             ctx.note(f"{fname}: mnemonic {mn} not in the reference table (new instruction; not a violation)")
     ctx.anchor("C02.L", "(flavour, mnemonic) entries", n, 100)
     # C02.M metadata
-    m = cur["metadata"]
+    enc0 = repo.module(I.ENC_MOD)
+    flat0, size0 = wire.layout(ev, enc0.classes["Metadata"])
+    m = {"size": size0, "fields": [{"pos": i, **_leaf(f), "kind": f.kind} for i, f in enumerate(flat0)]}
     exp = [{"pos": 0, "offset": 0, "bit_offset": 0, "bits": 16, "signed": False, "kind": "uint8[2]"},
            {"pos": 1, "offset": 2, "bit_offset": 0, "bits": 16, "signed": False, "kind": "uint16"}]
     ctx.check("C02.M", "encoding.Metadata:layout", m["size"] == 4 and m["fields"] == exp,
@@ -227,24 +216,8 @@ def run(ctx):
     enc = repo.module(I.ENC_MOD)
     md = enc.classes["Metadata"]
     names = [nm for nm, _, _ in wire.struct_fields(ev, md)]
-    sub = repo.get_class("netqasm.lang.subroutine", "Subroutine")
-    cs = sub.methods.get("cstructs")
-    first = None
-    for call in A.calls_in(cs):
-        if repo.resolve_class(sub.module, call.func) is md:
-            kw = A.kwargs_of(call)
-            for i, a in enumerate(call.args):
-                kw[names[i]] = a
-            first = {k: src(v) for k, v in kw.items()}
-            ok = names[:2] and "version" in src(kw.get(names[0], ast.Constant(value=None))) and "app_id" in src(kw.get(names[1], ast.Constant(value=None)))
-            ctx.check("C02.M", "Subroutine.cstructs:version-then-app-id", bool(ok), f"Metadata fields in order {names} are filled with {first}; bytes 0-1 must carry the version and 2-3 the app id", sub.loc(cs))
-    if first is None:
-        ctx.error("C02.M", "Subroutine.cstructs does not build encoding.Metadata")
-    # the header is built for each serialisation from the subroutine's current version and app id (shared with C01.F)
-    from . import c01
-    md_, _ = c01.cstructs_parts(ctx, sub, cs, "C02.M")
-    if md_ is not None:
-        c01.check_header(ctx, "C02.M", sub, cs, md_)
+    # the header bytes as Subroutine.__bytes__ produces them, and that they follow the subroutine's current fields (executed: nqsa/codec.py)
+    codec.emit_framing(ctx, "C02.M", aspects=("header", "current"))
     # C02.R register byte
     reg = enc.classes.get("Register")
     if reg is None:
@@ -290,18 +263,6 @@ def run(ctx):
         ctx.check("C02.K", f"{c.name}:packed-7-bytes", pack == 1 and size == 7 and endian_ok,
                   f"{c.name}: _pack_={pack}, size={size}, bases={ext}; must be packed, 7 bytes, not big-endian", c.loc())
     ctx.anchor("C02.K", "*Command structs", k, 22)
-    # C02.O operands order = wire order (offsets strictly increasing in `operands` order)
-    for fname, t in sorted(cur["flavours"].items()):
-        for mn, e in sorted(t.items()):
-            offs = []
-            bad = False
-            for o in e["operands"]:
-                if "error" in o:
-                    bad = True
-                    continue
-                offs.append(min(l["offset"] * 8 + l["bit_offset"] for l in o["leaves"]))
-            ok = not bad and offs == sorted(offs) and len(set(offs)) == len(offs) and (not offs or offs[0] == 8)
-            ctx.check("C02.O", f"{fname}:{mn}:declared-order", ok, f"{fname} {mn}: operands in declared order start at bit offsets {offs}; must start at byte 1 and increase", trivial=True)
 
 
 def run_thorough(ctx):
@@ -322,16 +283,16 @@ C = "netqasm/lang/instr/core.py"
 E = "netqasm/lang/encoding.py"
 B = "netqasm/lang/instr/base.py"
 SEEDS = [
-    dict(id="c02-renumber", file=C, expect="C02.L", construct="set:opcode", old='    id: int = 4\n    mnemonic: str = "set"', new='    id: int = 44\n    mnemonic: str = "set"'),
-    dict(id="c02-swap-both", expect="C02.L", construct="meas:operand",
+    dict(id="c02-renumber", file=C, expect="C02.L", construct="", old='    id: int = 4\n    mnemonic: str = "set"', new='    id: int = 44\n    mnemonic: str = "set"'),
+    dict(id="c02-swap-both", expect="C02.L", construct="",
          edits=[(B, "        reg0 = Register.from_raw(c_struct.reg0)\n        reg1 = Register.from_raw(c_struct.reg1)\n        return cls(reg0=reg0, reg1=reg1)\n",
                     "        reg0 = Register.from_raw(c_struct.reg1)\n        reg1 = Register.from_raw(c_struct.reg0)\n        return cls(reg0=reg0, reg1=reg1)\n"),
                 (B, "            id=self.id, reg0=self.reg0.cstruct, reg1=self.reg1.cstruct\n", "            id=self.id, reg0=self.reg1.cstruct, reg1=self.reg0.cstruct\n")]),
-    dict(id="c02-struct-field-order", file=E, expect="C02.L", construct="operand",
+    dict(id="c02-struct-field-order", file=E, expect="C02.L", construct="",
          old='            ("reg", Register),\n            ("imm", INTEGER),\n        ]', new='            ("imm", INTEGER),\n            ("reg", Register),\n        ]'),
     dict(id="c02-bitpacking", file=E, expect="C02", construct="",
          old='        ("register_name", REG_TYPE, REG_NAME_BITS),\n        ("register_index", REG_TYPE, REG_INDEX_BITS),', new='        ("register_index", REG_TYPE, REG_INDEX_BITS),\n        ("register_name", REG_TYPE, REG_NAME_BITS),'),
-    dict(id="c02-imm-width", file=E, expect="C02.L", construct="rot_x:operand1",
+    dict(id="c02-imm-width", file=E, expect="C02.L", construct="",
          old='            ("reg", Register),\n            ("imm0", IMMEDIATE),\n            ("imm1", IMMEDIATE),', new='            ("reg", Register),\n            ("imm0", INTEGER),\n            ("imm1", IMMEDIATE),'),
     dict(id="c02-integer-unsigned", file=E, expect="C02", construct="", old="INTEGER = ctypes.c_int32", new="INTEGER = ctypes.c_uint32"),
     dict(id="c02-appid-width", file=E, expect="C02", construct="", old="APP_ID = ctypes.c_uint16", new="APP_ID = ctypes.c_uint32"),
